@@ -304,3 +304,5 @@ _quick("C12", "C12_remote_newer", "the remote REPL_PROPOSAL handler on an accept
 _quick("C03", "C03_textexpire", "a text connection (real TextServerProtocol handlers) takes a hold with E = 3 s as its first lock-type command or after a LOCK / UNLOCK pair; the hold expires while the connection is silent; then LOCK on another key and UNLOCK: no notice queued for the connection, each command answered with its own result and LockId", ["-witness", "2"])
 
 _quick("C17", "C17_relock_long", "a hold with Rcount 3 parked in the long-expiry table at once (persist-immediately flag with E = 100 s, or unlimited expiry), re-locked 1..2 times in the same second (deadline unchanged) or a second later, every level given back, wheel swept: exact LCount / LRCount in every reply, counters back, no live manager", ["-witness", "6"])
+
+_quick("C01", "C01_slowmap", "a held key whose manager lives in the ordinary key map (hold parked in the long-expiry table; or two keys sharing one of 4 fast slots, the first released and optionally swept); a second request with Count 0 or 1 and Timeout 0: refused, holds unchanged, the holder's unlock accepted", ["-witness", "3"], reach=["end", "downgraded", "collision"])
